@@ -39,6 +39,16 @@ func keyFromToks(toks []string) key.Key {
 	if len(toks) == 1 && toks[0] == "nilkey" {
 		return nil
 	}
+	if sharedKeys != nil {
+		id := strings.Join(toks, " ")
+		if k, ok := sharedKeys[id]; ok {
+			return k.(key.Key)
+		}
+		v, _ := parseVal(toks, 0)
+		k := key.Key(v.(key.CoseMap))
+		sharedKeys[id] = k
+		return k
+	}
 	v, _ := parseVal(toks, 0)
 	return key.Key(v.(key.CoseMap))
 }
